@@ -114,6 +114,7 @@ type cluster struct {
 	fe      *simFrontend
 	handler http.Handler
 	reps    []*repNode
+	extra   []*repNode // replica processes of other volumes (clone)
 	mu      sync.Mutex // protects the observation logs below
 
 	// frame log (data connections)
@@ -431,7 +432,7 @@ func (a *agentStub) finish(p *agentProc, code int) {
 func (a *agentStub) send(p *agentProc) {
 	c := a.c
 	var dst *repNode
-	for _, r := range c.reps {
+	for _, r := range append(append([]*repNode(nil), c.reps...), c.extra...) {
 		if r.ip == p.Host {
 			dst = r
 		}
